@@ -204,12 +204,12 @@ CLAIMED['C08'] = dict(
          'valuation on which the input evaluates, for terms of any size; the folding of abs/bool/int/float/ceil/floor is proved against the '
          'evaluator for every oracle that does not extend the interpreted functions (callFold_sound, Props/C08d), the folding of '
          'len/sum/prod/max/min over literal sets, integer ranges and several arguments is proved (Props/C08e, C08f: len/sum/prod/max/min_fold_sound, '
-         'foldMinMax_sound); gcd_fold_sound holds for every oracle whose gcd is the greatest common divisor (GcdOracleOk); what stays a hypothesis about the rewriter is '
-         'the folding of str (StrFoldSound; simplify_sound_silent is unconditional for the oracle that interprets nothing). Also proved: the result is well-typed (simplify_WT) and has '
+         'foldMinMax_sound); gcd_fold_sound holds for every oracle whose gcd is the greatest common divisor (GcdOracleOk); str_fold_sound for every oracle whose str agrees with Python on literals (StrOracleOk): simplify_sound_of_oracle assumes nothing about the '
+         'rewriter, only three conditions on the oracle (met by the silent oracle and by a sample oracle that answers str: simplify_sound_sample). Also proved: the result is well-typed (simplify_WT) and has '
          'exactly the type of the input (simplify_ty). Function folding and whole-term meaning are also judged by the Lean '
          'evaluator on a valuation grid on every implementation output (which found the seven defects now fixed in /repo).',
     design_ref='DESIGN.md §0.1, §6 C08',
-    note='PARTIAL: SimplifySound is proved conditionally on StrFoldSound (folding of str, uninterpreted by the reference semantics) and GcdOracleOk; '
+    note='PARTIAL: SimplifySound is proved for every oracle meeting OracleClosed, GcdOracleOk and StrOracleOk (conditions on the uninterpreted functions only); '
          'fuel sufficiency of simpFuel is not proved. Exact rational arithmetic; NaN and arithmetic on infinities are errors of the original and '
          'constrain nothing; math functions are uninterpreted.',
     technique='Lean 4 proof by induction over the simplifier recursion (conditional on function-call folding) + full model correspondence + spec evaluation of every output')
